@@ -499,6 +499,70 @@ def shared_options_cases(ctx, only=None, label="C12"):
     return out
 
 
+def flip_tags(stmts: list) -> list:
+    """The same statements with the case of every language tag swapped: the same RDF data, other spelling."""
+    def f(t):
+        return gs.Literal(t._lex, langtag=t._langtag.swapcase()) if isinstance(t, gs.Literal) and t._langtag else t
+    return [type(st)(*[f(t) for t in st]) for st in stmts]
+
+
+def tagflip_outcome(cfg, stmts_a: list, stmts_b: list, dataset: bool):
+    """Write data A through the rdflib integration, then data B (A's statements under the other spelling of every language tag) in
+    the same process; the language tags B's bytes carry, read back by the GENERIC reader, against the ones B's literals have."""
+    import fam_rdflib
+
+    opts = core.make_options(cfg)
+    fam_rdflib.build(stmts_a, [], dataset).serialize(encoding="jelly", format="jelly", options=core.make_options(cfg))
+    data = fam_rdflib.build(stmts_b, [], dataset).serialize(encoding="jelly", format="jelly", options=opts)
+    got = sorted({(t._lex, t._langtag) for st in core.gparse.parse_jelly_flat(io.BytesIO(data)) for t in st if isinstance(t, gs.Literal) and t._langtag})
+    want = sorted({(t._lex, t._langtag) for st in stmts_b for t in st if isinstance(t, gs.Literal) and t._langtag})
+    return got, want
+
+
+def tagflip_history(ctx, n: int) -> list:
+    """C12, rdflib writers: what an EARLIER stream saw of a literal (its language tag under another spelling -- one term for rdflib's ==)
+    must not show in what a later stream writes."""
+    out = []
+    r = ctx.rng
+    made = tries = 0
+    while made < n and tries < 8 * n:
+        tries += 1
+        dataset = r.random() < 0.5
+        ar = 4 if dataset else 3
+        g = genmod.Gen(r, nprefix=r.randint(1, 3), nname=r.randint(2, 5), ndt=1)
+        stmts = fam_parse.rdf11_statements(r, g, r.choice([2, 4, 8]), ar)
+        if not any(isinstance(t, gs.Literal) and t._langtag for st in stmts for t in st):
+            continue
+        made += 1
+        cfg = Cfg(cls="Q" if dataset else "T", ig="r", logical=2 if dataset else 1, delim=True, maxn=4000, maxp=150, maxd=32, frame_size=r.choice([1, 250]), gen=False, star=False)
+        ctx.report.evaluations += 1
+        ctx.report.count("C12/rdflib: same literals under the other spelling of the language tag, in a later stream")
+        ctx.report.nontrivial.add(("tagflip", tuple(core_stmt_tok(x) for x in stmts)))
+        try:
+            got, want = tagflip_outcome(cfg, stmts, flip_tags(stmts), dataset)
+        except Exception as e:  # noqa: BLE001
+            got, want = ("raised", type(e).__name__), None
+        if got != want:
+            out.append({"family": "WLT", "cfg": cfg.as_json(), "stmts": [core_stmt_tok(x) for x in stmts], "dataset": dataset, "corresponds": True,
+                        "impl": str(got)[:300], "model": str(want)[:300], "signature": {},
+                        "property_violation": {"what": f"an rdflib stream written after another one that held the same literals under the other spelling of the language tag carries {str(got)[:120]}, its data says {str(want)[:120]}"}})
+    return out
+
+
+def replay_wlt(ctx, body):
+    from checks import parse_stmt_tok
+
+    cfg = Cfg(**{k: (tuple(v) if k == "flow" and v is not None else v) for k, v in body["cfg"].items()})
+    stmts = [parse_stmt_tok(t) for t in body["stmts"]]
+    got, want = tagflip_outcome(cfg, stmts, flip_tags(stmts), body["dataset"])
+    print("written :", got)
+    print("data    :", want)
+    return body["property_violation"]["what"] if got != want else None
+
+
+REPLAYERS["WLT"] = replay_wlt
+
+
 @plan(
     "C12",
     "WL: sets of 2-4 independent workloads (generic serializers and parsers): each alone, interleaved generator-step by generator-step under "
@@ -653,6 +717,11 @@ def c12(ctx):
         out.append({"family": "WL", "mode": "hash-seeds", "digests": digests, "corresponds": True, "impl": "", "model": "",
                     "property_violation": {"what": f"serialized bytes differ across processes / PYTHONHASHSEED values: {digests}"}, "signature": {}})
     ctx.report.sample({"family": "WL", "hash_seed_digests": digests})
+    # the rdflib writers after everything above ran in this process: what a stream writes is the model's pure function of its options and
+    # data, whatever literals (the same lexical form under another spelling of the language tag, say) earlier streams have seen
+    from checks import rdflib_sweep
+    out += rdflib_sweep(ctx, ctx.n(40, 600))
+    out += tagflip_history(ctx, ctx.n(15, 200))
     return out
 
 
@@ -976,6 +1045,10 @@ def c14(ctx):
             case["ns"] = [(a, b) for a, b in g.namespaces(r.randint(1, 3)) if b]
         # a prefix rdflib binds by default (foaf) is renamed by rdflib's own bind policy on the reader
         case["ns"] = [(a, b) for a, b in case["ns"] if a != "foaf"]
+        if (len(case["ns"]) + len(case["stmts"])) % 3 == 0:
+            # a namespace rdflib's Dataset binds by default, under a name of the source's own: the declaration must arrive under that name
+            k_ = (len(case["stmts"]) + len(cfg.tok())) % 3
+            case["ns"] = case["ns"] + [[("dct", "http://purl.org/dc/terms/"), ("sdo", "https://schema.org/"), ("xs", "http://www.w3.org/2001/XMLSchema#")][k_]]
         ctx.report.evaluations += 1
         ctx.report.nontrivial.add((cfg.tok(), tuple(case["ns"]), tuple(core_stmt_tok(s) for s in case["stmts"])))
         d = fam_rdflib.run_rdflib_case(ctx, case)
@@ -1097,6 +1170,9 @@ def c15(ctx):
     out += c15_grouped(ctx, ctx.n(60, 800))
     # literals of xsd:token / xsd:normalizedString whose lexical form the whiteSpace facet would rewrite: both integrations must hand out the form sent
     out += ref_sweep(ctx, ctx.n(30, 500), igs=("g", "r"), modes=("flat", "grouped", "to_graph"), rdf11=True, facet_p=0.35)
+    # one literal under several spellings of its language tag in one stream: the flat parsers hand out the spelling sent, statement by
+    # statement (flat only: an rdflib Graph / Dataset keeps ONE of the spellings, they are one term for it)
+    out += ref_sweep(ctx, ctx.n(30, 500), igs=("g", "r"), modes=("flat",), rdf11=True, tagcase_p=0.5)
     return out
 
 
